@@ -65,13 +65,14 @@ const (
 
 // alt / rel: the model of one alternative / one relation.
 type alt struct {
-	Name     string
-	Subst    bool
-	Qual     string   // multiarch qualifier: "native", "any"
-	Ver      string   // "(>= 1)" without the parentheses
-	Archs    []string // architecture restriction entries, without "!"
-	Neg      bool     // the entries are negated
-	Profiles string   // build-profile restriction formula as written, e.g. "<!nocheck>"
+	Name                         string
+	Subst                        bool
+	Qual                         string   // multiarch qualifier: "native", "any"
+	Ver                          string   // "(>= 1)" without the parentheses
+	Archs                        []string // architecture restriction entries, without "!"
+	Neg                          bool     // the entries are negated
+	Profiles                     string   // build-profile restriction formula as written, e.g. "<!nocheck>"
+	ArchOpen, ArchClose, ArchSep string   // SPELLING only: white space (blank, tab, a fold "\n ") after '[', before ']', between the names
 }
 
 type rel struct{ Alts []alt }
@@ -95,7 +96,11 @@ func (a alt) String() string {
 			}
 			x = append(x, ar)
 		}
-		s += " [" + strings.Join(x, " ") + "]"
+		sep := " "
+		if a.ArchSep != "" {
+			sep = a.ArchSep
+		}
+		s += " [" + a.ArchOpen + strings.Join(x, sep) + a.ArchClose + "]"
 	}
 	if a.Profiles != "" {
 		s += " " + a.Profiles
@@ -282,6 +287,23 @@ var decos = func() []deco {
 			if n := name(rs); !seen[n] {
 				seen[n] = true
 				d = append(d, deco{n, rs})
+			}
+		}
+	}
+	// spellings of a restriction list: white space or a fold after '[' / before ']' / between the names — same meaning
+	for _, al := range []struct {
+		neg bool
+		e   []string
+	}{{true, []string{"amd64"}}, {false, []string{"amd64"}}, {true, []string{"amd64", "i386"}}, {true, []string{"arm64", "amd64"}}, {false, []string{"arm64", "amd64"}}} {
+		for _, sp := range [][3]string{{" ", "", ""}, {"\n ", "", ""}, {"\t", "", ""}, {"", " ", ""}, {" ", " ", "  "}, {"", "\n ", "\n "}} {
+			for _, rs := range [][]rel{
+				one(alt{Name: b, Archs: al.e, Neg: al.neg, ArchOpen: sp[0], ArchClose: sp[1], ArchSep: sp[2]}),
+				one(alt{Name: o, Archs: al.e, Neg: al.neg, ArchOpen: sp[0], ArchClose: sp[1], ArchSep: sp[2]}, alt{Name: b}),
+			} {
+				if n := name(rs); !seen[n] {
+					seen[n] = true
+					d = append(d, deco{n, rs})
+				}
 			}
 		}
 	}
@@ -762,7 +784,20 @@ type parseCache map[string]*rowInfo
 
 var textsParsed int64
 
-type harnessProblem struct{ msg string }
+// harnessProblem: something kept the case from being ordered at all. library = the LIBRARY failed on an ordinary
+// rendered .dsc (ParseDsc error / panic / wrong Source) — that is an outcome (a violation), not a fault of the harness.
+type harnessProblem struct {
+	msg     string
+	library bool
+}
+
+// parseViolation turns a library-side parse failure into a verdict.
+func parseViolation(scen string, in In, hp *harnessProblem) verdict {
+	return verdict{clause: "ordinary-dsc-is-parsed", feats: nil, class: "VIOLATION:dsc-not-parsed",
+		build: func() *mc.Violation {
+			return mc.V(scen, "ordinary-dsc-is-parsed", in, "ParseDsc reads every rendered .dsc (ordinary control data), so that the set can be ordered", hp.msg)
+		}}
+}
 
 // rowKey identifies everything dscText(i) and the edges into i depend on.
 func (in In) rowKey(i int) string {
@@ -817,13 +852,13 @@ func parse(in In, i int) (*control.DSC, *harnessProblem) {
 	var err error
 	p, msg := mc.Guard(func() { d, err = control.ParseDsc(bufio.NewReader(strings.NewReader(t)), in.src(i)+"_1.0-1.dsc") })
 	if p {
-		return nil, &harnessProblem{"ParseDsc panicked on a rendered .dsc: " + msg + "\n" + t}
+		return nil, &harnessProblem{"ParseDsc panicked on a rendered .dsc: " + msg + "\n" + t, true}
 	}
 	if err != nil {
-		return nil, &harnessProblem{"ParseDsc rejects a rendered .dsc: " + err.Error() + "\n" + t}
+		return nil, &harnessProblem{"ParseDsc rejects a rendered .dsc: " + err.Error() + "\n" + t, true}
 	}
 	if d.Source != in.src(i) {
-		return nil, &harnessProblem{fmt.Sprintf("ParseDsc: Source = %q, rendered %q", d.Source, in.src(i))}
+		return nil, &harnessProblem{fmt.Sprintf("ParseDsc: Source = %q, rendered %q", d.Source, in.src(i)), true}
 	}
 	atomic.AddInt64(&textsParsed, 1)
 	return d, nil
@@ -926,6 +961,9 @@ func check(scen string, in In, cache parseCache) verdict {
 	}
 	rows, hp := prepare(in, cache)
 	if hp != nil {
+		if hp.library {
+			return parseViolation(scen, in, hp)
+		}
 		return verdict{problem: hp}
 	}
 	return evaluate(scen, in, rows, true)
@@ -949,7 +987,7 @@ func prepare(in In, cache parseCache) ([]*rowInfo, *harnessProblem) {
 func evaluate(scen string, in In, rows []*rowInfo, twice bool) verdict {
 	arch, aerr := parsedArch(in.Arch)
 	if aerr != nil {
-		return verdict{problem: &harnessProblem{"ParseArch(" + in.Arch + "): " + aerr.Error()}}
+		return verdict{problem: &harnessProblem{msg: "ParseArch(" + in.Arch + "): " + aerr.Error()}}
 	}
 	var es []edge
 	for i := 0; i < in.N; i++ {
@@ -1448,6 +1486,17 @@ func explore(r *mc.Run, sc scen) {
 					}
 				}
 				rows, hp := prepare(in, cache)
+				if hp != nil && hp.library {
+					res := parseViolation(name, clone(in), hp)
+					st.Evals++
+					st.Traces++
+					st.Class(res.class)
+					if kept[res.clause] < 3 {
+						kept[res.clause]++
+						wit.offer(res.clause, uint64(g)<<36|uint64(cnt)<<8, res.violation())
+					}
+					return
+				}
 				if hp != nil {
 					r.HarnessError("%s", hp.msg)
 					ok = false
@@ -1524,7 +1573,7 @@ func Run(r *mc.Run) {
 	explore(r, scen{name: "selfdeps-n3-k1-upto2deps", n: 3, k: 1, perms: p3, archSet: both, maxDeps: 2, decoN: nCore, diag: true})
 	if r.Quick() {
 		explore(r, scen{name: "graphs-n2-k1-alldecorations", n: 2, k: 1, perms: p2, archSet: three, maxDeps: -1, decoN: nFull})
-		explore(r, scen{name: "graphs-n3-k1-upto4deps", n: 3, k: 1, perms: p3, archSet: both, maxDeps: 4, decoN: nCore}) // (all 42 875 n=3 graphs run at k=0 in selfdeps-n3-k0; thorough: k=2 on all)
+		explore(r, scen{name: "graphs-n3-k1-upto4deps", n: 3, k: 1, perms: p3, archSet: both, maxDeps: 4, decoN: nCore})                                                // (all 42 875 n=3 graphs run at k=0 in selfdeps-n3-k0; thorough: k=2 on all)
 		explore(r, scen{name: "graphs-n3-k1-upto2deps-alldecorations", n: 3, k: 1, perms: p3, archSet: three, maxDeps: 2, decoN: nFull, layout: true, oneBinary: true}) // (the third architecture runs with all decorations in the n=1 / n=2 scenarios)
 		explore(r, scen{name: "graphs-n3-k2-upto2deps", n: 3, k: 2, perms: p3, archSet: both, maxDeps: 2, decoN: nBasic})
 		// field load: how many relations each field holds and which fields are in use at once
